@@ -3,6 +3,7 @@ import Pycoin.Proofs.MsgArmourRt
 import Pycoin.Proofs.TxWire
 import Pycoin.Gen.Networks
 import Pycoin.Props.C01
+import Pycoin.Proofs.RecoverX
 /-!
 C17 — signed text messages verify for the signer only and never crash the verifier.
 
@@ -180,7 +181,7 @@ C01 `sign_verifies` (ranges) and `recover_complete` (the recovery list starts wi
 If `sign_with_recid(d, z)` returns `(r, s, recid)` and recovery from the nonce abscissa with the parity bit of `recid`
 yields `Q` first, then `signature_for_message_hash` produces a text from which `pair_for_message_hash` returns exactly
 `(Q, is_compressed)`. -/
-theorem C17_recover_is_signer_partial (c : CurveParams) (bf d z : Int) (comp : Bool) (r s recid : Nat) (Q : Int × Int)
+theorem recover_is_signer_of_recovery (c : CurveParams) (bf d z : Int) (comp : Bool) (r s recid : Nat) (Q : Int × Int)
     (rest : List Pt)
     (hsig : RFC6979.signWithRecid c bf d z = .ok ((r : Int), (s : Int), (recid : Int)))
     (hr : 1 ≤ r ∧ r < c.n) (hs : 1 ≤ s ∧ s < c.n) (hn : c.n ≤ 2 ^ 256) (hrec : recid < 4)
@@ -205,11 +206,11 @@ theorem publicPairToSec_ok (x y : Int) (comp : Bool) (hx : 0 ≤ x ∧ x < 2 ^ 2
   unfold publicPairToSec
   cases comp <;> simp [h1, h2, bind, Except.bind, pure, Except.pure]
 
-/-- **C17 sign-then-verify** (partial, same hypotheses as `C17_recover_is_signer_partial`).  The signature
+/-- **C17 sign-then-verify** (partial, same hypotheses as `recover_is_signer_of_recovery`).  The signature
 `sign_message` produces verifies (a) for a key object whose public pair is the signer's and (b) for any address text
 that `parse.address` resolves to a pay-to-pubkey-hash contract carrying `hash160(sec(Q, is_compressed))`, compressed
 or not. -/
-theorem C17_sign_then_verify_partial (env : Env) (d : Int) (comp : Bool) (msg : Str) (z r s recid : Nat) (Q : Int × Int)
+theorem sign_then_verify_of_recovery (env : Env) (d : Int) (comp : Bool) (msg : Str) (z r s recid : Nat) (Q : Int × Int)
     (rest : List Pt)
     (hz : hashForSigning env.networkName msg = .ok z)
     (hsig : RFC6979.signWithRecid env.c env.bf d z = .ok ((r : Int), (s : Int), (recid : Int)))
@@ -222,7 +223,7 @@ theorem C17_sign_then_verify_partial (env : Env) (d : Int) (comp : Bool) (msg : 
       ∀ addr typ sec, env.parseAddress addr = .contract typ (some (Hash.hash160 sec)) → (typ = "p2pkh" ∨ typ = "p2pkh_wit") →
         publicPairToSec Q.1 Q.2 comp = .ok sec →
         verifyMessage env (.text addr) sig (some msg) = .ok true := by
-  obtain ⟨sig, h1, h2⟩ := C17_recover_is_signer_partial env.c env.bf d z comp r s recid Q rest hsig hr hs hn hrec hx hrecov
+  obtain ⟨sig, h1, h2⟩ := recover_is_signer_of_recovery env.c env.bf d z comp r s recid Q rest hsig hr hs hn hrec hx hrecov
   refine ⟨sig, h1, ?_, ?_⟩
   · rw [verifyMessage_of_pair env _ sig msg z _ comp hz h2]
     simp [pairMatchesKey, keyOf]
@@ -426,7 +427,7 @@ theorem pairForMessageHash_cases (c : CurveParams) (bf : Int) (hrt : RecoverTota
 base64 or not, any length, any header byte, any `r`, `s` — every message shorter than 2^64 bytes and every key object
 or address text that `parse.address` recognises, the repaired `verify_message` returns a boolean: the model has no
 exception left on that domain. -/
-theorem C17_verify_total_partial (env : Env) (hrt : RecoverTotal env.c env.bf) (ka : KeyOrAddress)
+theorem verify_total_of (env : Env) (hrt : RecoverTotal env.c env.bf) (ka : KeyOrAddress)
     (hka : keyOf env ka ≠ .pyNone) (sig msg : Str)
     (h1 : (utf8 (env.networkName ++ magicSuffix)).length < 2 ^ 64) (h2 : (utf8 msg).length < 2 ^ 64) :
     ∃ b, verifyMessage env ka sig (some msg) = .ok b := by
@@ -452,6 +453,7 @@ theorem C17_verify_total_partial (env : Env) (hrt : RecoverTotal env.c env.bf) (
 theorem pairForMessageHash_ok_inv (c : CurveParams) (bf : Int) (sig : Str) (z : Int) (P : Pt) (comp : Bool)
     (h : pairForMessageHash c bf sig z = .ok (P, comp)) :
     ∃ recid r s rest, decodeSignature sig = .ok (comp, recid, r, s) ∧ P ≠ none ∧
+      (1 : Int) ≤ (r : Int) ∧ (r : Int) < (c.n : Int) ∧ nonceX c r recid < (c.p : Int) ∧
       possiblePublicPairsForSignature c bf z (nonceX c r recid) s (some ((recid &&& 1 : Nat) : Int)) = .ok (P :: rest) := by
   unfold pairForMessageHash at h
   cases hd : decodeSignature sig with
@@ -480,13 +482,13 @@ theorem pairForMessageHash_ok_inv (c : CurveParams) (bf : Int) (sig : Str) (z : 
               injection h with h
               injection h with h1 h2
               subst h1; subst h2
-              exact ⟨recid, r, s, tail, rfl, hq, hl⟩
+              exact ⟨recid, r, s, tail, rfl, hq, hrange.1, hrange.2.1, by unfold nonceX; omega, hl⟩
     · rw [if_pos hrange] at h; cases h
 
 /-- the C01 fact the "other message" clause rests on: for a fixed `(x, s, parity)` the key recovered for a digest
 determines that digest modulo `n` (recovery yields `x⁻¹(s·R − z·G)`, and `G` has order `n`) -/
 def RecoverInjective (c : CurveParams) (bf : Int) : Prop :=
-  ∀ (z z' x s par : Int) (P : Pt) (rest rest' : List Pt), P ≠ none →
+  ∀ (z z' r x s par : Int) (P : Pt) (rest rest' : List Pt), 1 ≤ r → r < c.n → (x = r ∨ x = r + c.n) → x < c.p →
     possiblePublicPairsForSignature c bf z x s (some par) = .ok (P :: rest) →
     possiblePublicPairsForSignature c bf z' x s (some par) = .ok (P :: rest') →
     z % (c.n : Int) = z' % (c.n : Int)
@@ -496,7 +498,7 @@ def RecoverInjective (c : CurveParams) (bf : Int) : Prop :=
 collision resistance of the double SHA-256 over the length-prefixed preimages (plus the 2⁻¹²⁸ event that two distinct
 digests differ by `n`).  Then a signature text that verifies for a key object on `msg` does not verify for that key on
 `msg'`. -/
-theorem C17_other_message_partial (env : Env) (hinj : RecoverInjective env.c env.bf) (K : Option (Int × Int))
+theorem other_message_of (env : Env) (hinj : RecoverInjective env.c env.bf) (K : Option (Int × Int))
     (sig msg msg' : Str) (z z' : Nat)
     (hz : hashForSigning env.networkName msg = .ok z) (hz' : hashForSigning env.networkName msg' = .ok z')
     (hcr : (z : Int) % (env.c.n : Int) ≠ (z' : Int) % (env.c.n : Int))
@@ -518,15 +520,15 @@ theorem C17_other_message_partial (env : Env) (hinj : RecoverInjective env.c env
       simp only [pairMatchesKey, Except.ok.injEq, beq_iff_eq] at h h'
       subst h
       subst h'
-      obtain ⟨recid, r, s, rest, hd, hne, hrec⟩ := pairForMessageHash_ok_inv _ _ _ _ _ _ hp
-      obtain ⟨recid', r', s', rest', hd', _, hrec'⟩ := pairForMessageHash_ok_inv _ _ _ _ _ _ hp'
+      obtain ⟨recid, r, s, rest, hd, hne, hr1, hr2, hxp, hrec⟩ := pairForMessageHash_ok_inv _ _ _ _ _ _ hp
+      obtain ⟨recid', r', s', rest', hd', _, _, _, _, hrec'⟩ := pairForMessageHash_ok_inv _ _ _ _ _ _ hp'
       rw [hd] at hd'
       injection hd' with hd'
       injection hd' with _ hd'
       injection hd' with h1 hd'
       injection hd' with h2 h3
       subst h1; subst h2; subst h3
-      exact hcr (hinj _ _ _ _ _ _ _ _ hne hrec hrec')
+      exact hcr (hinj _ _ (r : Int) _ _ _ _ _ _ hr1 hr2 (by unfold nonceX; by_cases h : recid > 1 <;> simp [h]) hxp hrec hrec')
 
 
 /-! ## with the C01 / C02 facts -/
@@ -556,7 +558,7 @@ theorem signWithRecid_inv (bf d z r s v : Int) (h : RFC6979.signWithRecid c bf d
 /-- **C17 recovery clause on an ECDSA-good curve** (partial: only C01 `recover_complete` remains a hypothesis; the
 ranges of `r`, `s`, the recovery id and the nonce abscissa are derived from C01's `signLoop_sound` and C02's
 reducedness of `k•G`).  Holds for every nonce point, `x(R) < n` or not (`p < 2n`: recovery ids 2, 3 mean `x = r + n`). -/
-theorem C17_recover_is_signer_ecdsa_partial (ok : ECDSAOk c) (hp2n : (c.p : Int) < 2 * (c.n : Int)) (bf d z : Int)
+theorem recover_is_signer_of_complete (ok : ECDSAOk c) (hp2n : (c.p : Int) < 2 * (c.n : Int)) (bf d z : Int)
     (comp : Bool) (hd : (d : ZMod c.n) ≠ 0) (hRC : RecoverComplete c bf) (sig : Str)
     (hsig : signatureForMessageHash c bf d z comp = .ok sig) :
     ∃ Q, mulG c bf d = .ok (some Q) ∧ pairForMessageHash c bf sig z = .ok (some Q, comp) := by
@@ -609,7 +611,7 @@ theorem C17_recover_is_signer_ecdsa_partial (ok : ECDSAOk c) (hp2n : (c.p : Int)
     obtain ⟨Q, rest, hQ, hrec⟩ := hRC bf d z k x y s hk hmul (by rw [← hrx]; exact hsrel) (by rw [← hrx]; exact hr1) hs1 hs2 hd
     refine ⟨Q, hQ, ?_⟩
     subst hrn; subst hsn; subst hvn
-    have hh := C17_recover_is_signer_partial c bf d z comp rn sn vn Q rest hsw (by omega) (by omega) ok.n256 (by omega)
+    have hh := recover_is_signer_of_recovery c bf d z comp rn sn vn Q rest hsw (by omega) (by omega) ok.n256 (by omega)
       (by rw [hnx]; exact hxp) (by rw [hnx, hpar]; exact hrec)
     obtain ⟨sig', hs', hp'⟩ := hh
     unfold signatureForMessageHash at hs'
@@ -659,7 +661,7 @@ theorem signMessage_inv (env : Env) (d : Int) (comp : Bool) (msg sig : Str)
 curve functions).  What `sign_message` returns for a key `d ≢ 0 (mod n)` — compressed or not — verifies for the key
 object holding `d•G` and for every address text that `parse.address` resolves to a pay-to-pubkey-hash contract of
 `hash160(sec(d•G, is_compressed))`; and `pair_for_message_hash` returns exactly `(d•G, is_compressed)`. -/
-theorem C17_sign_then_verify_ecdsa_partial (ok : ECDSAOk c) (hp2n : (c.p : Int) < 2 * (c.n : Int)) (bf d : Int)
+theorem sign_then_verify_of_complete (ok : ECDSAOk c) (hp2n : (c.p : Int) < 2 * (c.n : Int)) (bf d : Int)
     (comp : Bool) (hd : (d : ZMod c.n) ≠ 0) (hRC : RecoverComplete c bf)
     (name : Str) (pa : Str → KeyObj) (pp : Bytes → Except Err Str) (msg sig : Str)
     (hsign : signMessage ⟨c, bf, name, pa, pp⟩ d comp msg false = .ok sig) :
@@ -670,7 +672,7 @@ theorem C17_sign_then_verify_ecdsa_partial (ok : ECDSAOk c) (hp2n : (c.p : Int) 
         publicPairToSec Q.1 Q.2 comp = .ok sec →
         verifyMessage ⟨c, bf, name, pa, pp⟩ (.text addr) sig (some msg) = .ok true := by
   obtain ⟨z, hz, hsig⟩ := signMessage_inv _ d comp msg sig hsign
-  obtain ⟨Q, hQ, hp⟩ := C17_recover_is_signer_ecdsa_partial ok hp2n bf d z comp hd hRC sig hsig
+  obtain ⟨Q, hQ, hp⟩ := recover_is_signer_of_complete ok hp2n bf d z comp hd hRC sig hsig
   refine ⟨Q, hQ, ⟨z, hz, hp⟩, ?_, ?_⟩
   · rw [verifyMessage_of_pair ⟨c, bf, name, pa, pp⟩ _ sig msg z _ comp hz hp]
     simp [pairMatchesKey, keyOf]
@@ -688,17 +690,130 @@ theorem C17_secp256k1_p_lt_2n :
     (Pycoin.Gen.Curves.secp256k1.p : Int) < 2 * (Pycoin.Gen.Curves.secp256k1.n : Int) := by
   decide +kernel
 
-/-- the instance for secp256k1: `ECDSAOk` is C01's `C01_ecdsaOk_secp256k1` -/
-theorem C17_sign_then_verify_secp256k1_partial (bf d : Int) (comp : Bool)
-    (hd : (d : ZMod Pycoin.Gen.Curves.secp256k1.n) ≠ 0) (hRC : RecoverComplete Pycoin.Gen.Curves.secp256k1 bf)
-    (name : Str) (pa : Str → KeyObj) (pp : Bytes → Except Err Str) (msg sig : Str)
-    (hsign : signMessage ⟨Pycoin.Gen.Curves.secp256k1, bf, name, pa, pp⟩ d comp msg false = .ok sig) :
-    ∃ Q, mulG Pycoin.Gen.Curves.secp256k1 bf d = .ok (some Q) ∧
-      verifyMessage ⟨Pycoin.Gen.Curves.secp256k1, bf, name, pa, pp⟩ (.obj (.key (some Q))) sig (some msg) = .ok true := by
-  obtain ⟨Q, hQ, _, hv, _⟩ := C17_sign_then_verify_ecdsa_partial Pycoin.Gen.Curves.C01_ecdsaOk_secp256k1
-    C17_secp256k1_p_lt_2n bf d comp hd hRC name pa pp msg sig hsign
-  exact ⟨Q, hQ, hv⟩
+/-! ## the three recovery facts, proved (from `Proofs/RecoverX.lean`, which extends C01's recovery theorems to every
+abscissa `x < p`, `x ≢ 0 (mod n)`, without a torsion hypothesis) -/
 
+theorem natCast_self_zmod (n : Nat) : ((n : Int) : ZMod n) = 0 := by
+  rw [Int.cast_natCast]; exact ZMod.natCast_self n
+
+theorem abscissa_ne_zero (ok : ECDSAOk c) (r x : Int) (hr1 : 1 ≤ r) (hr2 : r < c.n) (hx : x = r ∨ x = r + c.n) :
+    (x : ZMod c.n) ≠ 0 := by
+  have h := intCast_ne_zero_of_range (c := c) r hr1 hr2
+  rcases hx with rfl | rfl
+  · exact h
+  · push_cast; rw [ZMod.natCast_self, add_zero]; exact h
+
+theorem recoverTotal_holds (ok : ECDSAOk c) (h4 : c.p % 4 = 3) (hp256 : c.p ≤ 2 ^ 256) (bf : Int) : RecoverTotal c bf := by
+  intro z r x s par hr1 hr2 hx hxp
+  have hx0 : 0 ≤ x := by
+    have : (0 : Int) ≤ c.n := Int.natCast_nonneg _
+    rcases hx with rfl | rfl <;> omega
+  obtain ⟨l, hl, hall⟩ := recover_total_x ok h4 bf z x s par hx0 hxp (abscissa_ne_zero ok r x hr1 hr2 hx)
+  refine ⟨l, hl, ?_⟩
+  intro X Y hm
+  obtain ⟨-, hred⟩ := hall _ hm
+  obtain ⟨a, b, c', d⟩ : 0 ≤ X ∧ X < c.p ∧ 0 ≤ Y ∧ Y < c.p := hred
+  have : (c.p : Int) ≤ 2 ^ 256 := by exact_mod_cast hp256
+  omega
+
+theorem recoverInjective_holds (ok : ECDSAOk c) (h4 : c.p % 4 = 3) (bf : Int) : RecoverInjective c bf := by
+  intro z z' r x s par P rest rest' hr1 hr2 hx hxp h h'
+  have hx0 : 0 ≤ x := by
+    have : (0 : Int) ≤ c.n := Int.natCast_nonneg _
+    rcases hx with rfl | rfl <;> omega
+  exact recover_injective_x ok h4 bf z z' x s par hx0 hxp (abscissa_ne_zero ok r x hr1 hr2 hx) P rest rest' h h'
+
+theorem recoverComplete_holds (ok : ECDSAOk c) (h4 : c.p % 4 = 3) (bf : Int) : RecoverComplete c bf := by
+  intro bf' d z k x y s hk hmul hs hx1 hs1 hs2 hd
+  have := ok.neZero
+  have hxn : (x : ZMod c.n) ≠ 0 := by
+    intro h0
+    have hdvd := (ZMod.intCast_zmod_eq_zero_iff_dvd x c.n).mp h0
+    have := Int.emod_eq_zero_of_dvd hdvd
+    omega
+  have hs' : (s : ZMod c.n) = (k : ZMod c.n)⁻¹ * ((z : ZMod c.n) + (d : ZMod c.n) * (x : ZMod c.n)) := by
+    rw [hs, ZMod.intCast_mod]
+  obtain ⟨Q, hQ, hrec⟩ := recover_complete_x ok h4 bf' bf bf d z k x y s hmul hxn hs'
+  -- the public key of d ≢ 0 is a finite point
+  obtain ⟨Q', q1, q2, q3, q4, q5⟩ := pubkey_spec ok bf d
+  rw [hQ] at q1; cases q1
+  cases Q with
+  | some q => exact ⟨q, [], hQ, hrec⟩
+  | none =>
+    exfalso
+    rw [toPoint_none] at q4
+    exact zsm_G_ne_zero ok _ hd q4.symm
+
+/-- what the clauses below need of the curve: C01's `ECDSAOk` (`n` prime, `G` a reduced point of order `n`), `p ≡ 3 (mod 4)`
+(every `Generator` asserts it), `p < 2n` (recovery ids 2, 3 mean `x = r + n`) and `p ≤ 2^256` (32-byte coordinates) -/
+structure MsgCurveOk (c : CurveParams) [Good c] : Prop where
+  ok : ECDSAOk c
+  h4 : c.p % 4 = 3
+  hp2n : (c.p : Int) < 2 * (c.n : Int)
+  hp256 : c.p ≤ 2 ^ 256
+
+/-- all of it holds for secp256k1, the curve of every bitcoin-like network (constants as generated from the code) -/
+theorem C17_curve_ok_secp256k1 : MsgCurveOk Pycoin.Gen.Curves.secp256k1 :=
+  ⟨Pycoin.Gen.Curves.C01_ecdsaOk_secp256k1, by decide +kernel, C17_secp256k1_p_lt_2n, by decide +kernel⟩
+
+/-- **C17 recovery clause.**  For every secret exponent `d ≢ 0 (mod n)`, digest `z` and compression flag: from the
+text `signature_for_message_hash` returns, `pair_for_message_hash` recovers exactly `(d•G, is_compressed)` — whatever
+the nonce point, `x(R) < n` or not. -/
+theorem C17_recover_is_signer (mok : MsgCurveOk c) (bf d z : Int) (comp : Bool) (hd : (d : ZMod c.n) ≠ 0) (sig : Str)
+    (hsig : signatureForMessageHash c bf d z comp = .ok sig) :
+    ∃ Q, mulG c bf d = .ok (some Q) ∧ pairForMessageHash c bf sig z = .ok (some Q, comp) :=
+  recover_is_signer_of_complete mok.ok mok.hp2n bf d z comp hd (recoverComplete_holds mok.ok mok.h4 bf) sig hsig
+
+/-- **C17 sign-then-verify clause.**  For every key `d ≢ 0 (mod n)`, compressed or not, every network name and every
+message: what `sign_message` returns verifies for the key object holding `d•G`, and for every address text that
+`parse.address` resolves to a pay-to-pubkey-hash contract of `hash160(sec(d•G, is_compressed))`. -/
+theorem C17_sign_then_verify (mok : MsgCurveOk c) (bf d : Int) (comp : Bool) (hd : (d : ZMod c.n) ≠ 0)
+    (name : Str) (pa : Str → KeyObj) (pp : Bytes → Except Err Str) (msg sig : Str)
+    (hsign : signMessage ⟨c, bf, name, pa, pp⟩ d comp msg false = .ok sig) :
+    ∃ Q, mulG c bf d = .ok (some Q) ∧
+      verifyMessage ⟨c, bf, name, pa, pp⟩ (.obj (.key (some Q))) sig (some msg) = .ok true ∧
+      ∀ addr typ sec, pa addr = .contract typ (some (Hash.hash160 sec)) → (typ = "p2pkh" ∨ typ = "p2pkh_wit") →
+        publicPairToSec Q.1 Q.2 comp = .ok sec →
+        verifyMessage ⟨c, bf, name, pa, pp⟩ (.text addr) sig (some msg) = .ok true := by
+  obtain ⟨Q, hQ, -, hv, ha⟩ := sign_then_verify_of_complete mok.ok mok.hp2n bf d comp hd
+    (recoverComplete_holds mok.ok mok.h4 bf) name pa pp msg sig hsign
+  exact ⟨Q, hQ, hv, ha⟩
+
+/-- **C17 totality clause.**  For every signature text — base64 or not, any length, any header byte, any `r`, `s` —
+every message shorter than 2^64 bytes and every key object or address text that `parse.address` recognises, the
+repaired `verify_message` returns a boolean: no exception branch of the model is reachable. -/
+theorem C17_verify_total (mok : MsgCurveOk c) (bf : Int) (name : Str) (pa : Str → KeyObj) (pp : Bytes → Except Err Str)
+    (ka : KeyOrAddress) (hka : keyOf ⟨c, bf, name, pa, pp⟩ ka ≠ .pyNone) (sig msg : Str)
+    (h1 : (utf8 (name ++ magicSuffix)).length < 2 ^ 64) (h2 : (utf8 msg).length < 2 ^ 64) :
+    ∃ b, verifyMessage ⟨c, bf, name, pa, pp⟩ ka sig (some msg) = .ok b :=
+  verify_total_of ⟨c, bf, name, pa, pp⟩ (recoverTotal_holds mok.ok mok.h4 mok.hp256 bf) ka hka sig msg h1 h2
+
+/-- **C17 other-message clause** (partial: `hcr` is the cryptographic hypothesis — the digests of the two messages
+differ modulo `n`; for distinct messages that is collision resistance of the double SHA-256 over the length-prefixed
+preimages, plus the 2⁻¹²⁸ event that two distinct digests differ by `n`).  A signature text that verifies for a key
+object on `msg` does not verify for that key on `msg'`: recovery yields `x⁻¹(s•R − z•G)`, injective in `z mod n`. -/
+theorem C17_other_message_partial (mok : MsgCurveOk c) (bf : Int) (name : Str) (pa : Str → KeyObj)
+    (pp : Bytes → Except Err Str) (K : Option (Int × Int)) (sig msg msg' : Str) (z z' : Nat)
+    (hz : hashForSigning name msg = .ok z) (hz' : hashForSigning name msg' = .ok z')
+    (hcr : (z : Int) % (c.n : Int) ≠ (z' : Int) % (c.n : Int))
+    (h : verifyMessage ⟨c, bf, name, pa, pp⟩ (.obj (.key K)) sig (some msg) = .ok true) :
+    verifyMessage ⟨c, bf, name, pa, pp⟩ (.obj (.key K)) sig (some msg') ≠ .ok true :=
+  other_message_of ⟨c, bf, name, pa, pp⟩ (recoverInjective_holds mok.ok mok.h4 bf) K sig msg msg' z z' hz hz' hcr h
+
+/-- `verify_message`, `sign_message`, `hash_for_signing`, `pair_for_message_hash` of the model are functions of their
+arguments: there is no state a previous call could leave behind (the harness's history ops check the same of the
+implementation).  Stated as congruence: equal arguments, equal answers. -/
+theorem C17_stateless (env env' : Env) (ka ka' : KeyOrAddress) (sig sig' msg msg' : Str) (d d' : Int) (comp comp' v v' : Bool)
+    (he : env = env') (hk : ka = ka') (hs : sig = sig') (hm : msg = msg') (hd : d = d') (hc : comp = comp') (hv : v = v') :
+    verifyMessage env ka sig (some msg) = verifyMessage env' ka' sig' (some msg') ∧
+    signMessage env d comp msg v = signMessage env' d' comp' msg' v' ∧
+    hashForSigning env.networkName msg = hashForSigning env'.networkName msg' := by
+  subst he hk hs hm hd hc hv; exact ⟨rfl, rfl, rfl⟩
+
+/-- the digest and everything built on it depend on the network only through its *name*: two networks of the same
+name (btc/xtn/xrt, ltc/xlt, …) hash alike, and sharing or not sharing a signer between them changes nothing -/
+theorem C17_same_name_same_digest (n1 n2 : Pycoin.Addr.Network) (h : n1.networkName = n2.networkName) (msg : Str) :
+    hashForSigning n1.networkName.toList msg = hashForSigning n2.networkName.toList msg := by rw [h]
 
 /-! ## non-vacuity (evaluation, a test — not a theorem): on a concrete instance the model signs, the text has the
 documented form, the signer's key verifies, another message and malformed texts are refused with `False` -/
